@@ -55,6 +55,21 @@ func runOne(t *testing.T, prop string, seed uint64, thorough bool, raw json.RawM
 		cc.Schedule = res.Schedule
 		return res, &cc
 	}
+	if prop == "C16" {
+		var c *C16Case
+		if raw != nil {
+			c = &C16Case{}
+			if err := json.Unmarshal(raw, c); err != nil {
+				t.Fatal(err)
+			}
+		} else {
+			c = GenC16(seed, thorough)
+		}
+		res := RunC16(t, c)
+		cc := *c
+		cc.Schedule = res.Schedule
+		return res, &cc
+	}
 	t.Fatalf("unknown property %q", prop)
 	return nil, nil
 }
